@@ -1,7 +1,7 @@
 SPECIFICATION Spec
 CONSTANTS
- MaxTok = 6
- TokSet = {1, 2, 3, 4, 5, 6, 7, 8, 9, 10}
+ MaxTok = 16
+ TokSet = {1, 7}
 ACTION_CONSTRAINT Emit
 INVARIANTS NoDotDot TwoFormulations Idempotent SegmentsSafe SplitOK Shrinks
 CHECK_DEADLOCK FALSE
